@@ -305,6 +305,50 @@ func run(ctx *Ctx) *Result {
 			}
 		}
 		ops, parsed := parseScript(t, c.Backend, out)
+		if c.OnlyB && c.Fill > 0 {
+			// one long insert run: judged here (the Lean planner takes minutes on 10^4 inserts): exactly the new lines are
+			// added, in target order, at strictly increasing positions (IOS: numbers that fit between the two
+			// resequenced neighbours), nothing is deleted or moved, and the result compares equal to the target
+			res.Eval(canon, parsed && len(ops) > 0)
+			res.TracesVsImpl++
+			bad := ""
+			want := 0
+			prev := -1
+			for _, l := range c.B {
+				if l.Src >= len(srcNets) {
+					want++
+				}
+			}
+			if !parsed || len(ops) != want {
+				bad = fmt.Sprintf("%d line operations for %d new lines (parsed=%v)", len(ops), want, parsed)
+			}
+			for _, op := range ops {
+				var n, k int
+				if _, err := fmt.Sscanf(op, "A %d %d", &n, &k); err != nil {
+					bad = "operation other than an insert: " + op
+					break
+				}
+				if n <= prev {
+					bad = fmt.Sprintf("insert positions not increasing: %d after %d", n, prev)
+					break
+				}
+				if ios && (n/10000 != c.FillB || n%10000 == 0) && c.FillB < len(c.A) {
+					bad = fmt.Sprintf("number %d does not fit between entries %d and %d of the resequenced ACL", n, c.FillB, c.FillB+1)
+					break
+				}
+				prev = n
+			}
+			if bad == "" {
+				out2, _, st2, pan2 := runDrc(model(c.Backend), devConfig(c.Backend, c.B, c.SeqDev), spocText)
+				if pan2 != "" || st2 != 0 || strings.TrimSpace(out2) != "" {
+					bad = "the target as device does not compare equal to the target: " + pan2 + out2[:min(len(out2), 200)]
+				}
+			}
+			if bad != "" {
+				res.Fail(map[string]any{"pred": "long_insert_run_wrong", "backend": c.Backend}, bad, c0)
+			}
+			return
+		}
 		il := "-"
 		if parsed {
 			il = strings.Join(ops, "|")
